@@ -223,6 +223,21 @@ func c02GenCase(rt *rapid.T) c02Case {
 			all = append(all, c02Node{Path: fmt.Sprintf("ch%d", i), Kind: "link", Target: t})
 		}
 	}
+	// sometimes a link whose *text* has ".." after a symlink: "jump/../data" means <where jump leads>/../data to the
+	// kernel, and plain "data" to anybody who cleans the text first
+	jump := rapid.IntRange(0, 3).Draw(rt, "jump") == 0
+	if jump {
+		jd := rapid.SampledFrom(dirs).Draw(rt, "jumpdir") // the links live here
+		up := strings.Repeat("../", strings.Count(jd, "/")+map[bool]int{true: 0, false: 1}[jd == ""])
+		all = append(all,
+			c02Node{Path: "jdir", Kind: "dir"}, c02Node{Path: "jdir/in", Kind: "dir"}, c02Node{Path: "jdir/data", Kind: "file"},
+			c02Node{Path: filepath.Join(jd, "data"), Kind: "file"},
+			c02Node{Path: filepath.Join(jd, "jump"), Kind: "link", Target: up + "jdir/in"},
+			c02Node{Path: filepath.Join(jd, "evil"), Kind: "link", Target: rapid.SampledFrom([]string{"jump/../data", "./jump/../data", "jump/.././data", "jump/../../jdir/data"}).Draw(rt, "eviltext")})
+		dirs = append(dirs, "jdir", "jdir/in")
+		c.Ops = append(c.Ops, c02Op{Kind: "call", Sys: "open", D1: c02Dirfd{Enc: "cwd-100"}, P1: "{R}/" + filepath.Join(jd, "evil"), Flags: 0, Place: "plain"},
+			c02Op{Kind: "call", Sys: "stat", D1: c02Dirfd{Enc: "cwd-100"}, P1: "{R}/" + filepath.Join(jd, "evil"), Place: "plain"})
+	}
 	c.Nodes = all
 	m := newC02Model(all)
 
